@@ -248,6 +248,18 @@ class SymInterp(Interp):
             if isinstance(l, (SArr, Rat, int, float)) and isinstance(r, (SArr, Rat, int, float)):
                 name = {ast.Eq: "eq", ast.NotEq: "ne", ast.Gt: "gt", ast.GtE: "ge", ast.Lt: "lt", ast.LtE: "le"}[type(op)]
                 return self.data_cmp(name, l, r)
+            if isinstance(op, (ast.Eq, ast.NotEq)):
+                for a, b in ((l, r), (r, l)):
+                    if isinstance(a, SArr) and not isinstance(b, (SArr, list, tuple, dict)):
+                        # an array of labels (object / text dtype) against one label: elementwise tests
+                        def one(x, _b=b):
+                            try:
+                                same = (rat(x) == rat(_b)) if isinstance(x, (Rat, int, float)) and isinstance(_b, (Rat, int, float)) and not isinstance(x, bool) and not isinstance(_b, bool) \
+                                    else (type(x) is type(_b) and x == _b) or (isinstance(x, str) and isinstance(_b, str) and x == _b)
+                            except SymAbort:
+                                same = False
+                            return rat(int(bool(same) == isinstance(op, ast.Eq)))
+                        return SArr(a.shape, [one(x) for x in a.data], dtype="bool")
             if isinstance(op, ast.Eq):
                 return False
             if isinstance(op, ast.NotEq):
